@@ -54,14 +54,14 @@ theorem shapeA_bin1_eq (s0 s1 b0 b1 nlo nhi hl0 hl1 hh0 hh1 p_sysB p_mu p_sysA :
 
 set_option maxHeartbeats 1600000 in
 /-- shapeB, bin 0: tensor code = declared formula, for all parameters and all positive data -/
-theorem shapeB_bin0_eq (s0 s1 es0 es1 b0 b1 u0 u1 eb0 eb1 p_lumi p_mu p_uncorr_0 p_uncorr_1 p_stat_SR_0 p_stat_SR_1 : ℝ) (_hs0 : 0 < s0) (_hs1 : 0 < s1) (_hes0 : 0 < es0) (_hes1 : 0 < es1) (_hb0 : 0 < b0) (_hb1 : 0 < b1) (_hu0 : 0 < u0) (_hu1 : 0 < u1) (_heb0 : 0 < eb0) (_heb1 : 0 < eb1) :
-    Gen.shapeB_bin0 realPrim s0 s1 es0 es1 b0 b1 u0 u1 eb0 eb1 p_lumi p_mu p_uncorr_0 p_uncorr_1 p_stat_SR_0 p_stat_SR_1 = Gen.shapeB_ref0 realPrim s0 s1 es0 es1 b0 b1 u0 u1 eb0 eb1 p_lumi p_mu p_uncorr_0 p_uncorr_1 p_stat_SR_0 p_stat_SR_1 := by
+theorem shapeB_bin0_eq (s0 s1 es0 es1 b0 b1 u0 u1 eb0 eb1 hl0 hl1 hh0 hh1 p_sysH p_lumi p_mu p_uncorr_0 p_uncorr_1 p_stat_SR_0 p_stat_SR_1 : ℝ) (_hs0 : 0 < s0) (_hs1 : 0 < s1) (_hes0 : 0 < es0) (_hes1 : 0 < es1) (_hb0 : 0 < b0) (_hb1 : 0 < b1) (_hu0 : 0 < u0) (_hu1 : 0 < u1) (_heb0 : 0 < eb0) (_heb1 : 0 < eb1) (_hhl0 : 0 < hl0) (_hhl1 : 0 < hl1) (_hhh0 : 0 < hh0) (_hhh1 : 0 < hh1) :
+    Gen.shapeB_bin0 realPrim s0 s1 es0 es1 b0 b1 u0 u1 eb0 eb1 hl0 hl1 hh0 hh1 p_sysH p_lumi p_mu p_uncorr_0 p_uncorr_1 p_stat_SR_0 p_stat_SR_1 = Gen.shapeB_ref0 realPrim s0 s1 es0 es1 b0 b1 u0 u1 eb0 eb1 hl0 hl1 hh0 hh1 p_sysH p_lumi p_mu p_uncorr_0 p_uncorr_1 p_stat_SR_0 p_stat_SR_1 := by
   unfold Gen.shapeB_bin0 Gen.shapeB_ref0; shape_eq
 
 set_option maxHeartbeats 1600000 in
 /-- shapeB, bin 1: tensor code = declared formula, for all parameters and all positive data -/
-theorem shapeB_bin1_eq (s0 s1 es0 es1 b0 b1 u0 u1 eb0 eb1 p_lumi p_mu p_uncorr_0 p_uncorr_1 p_stat_SR_0 p_stat_SR_1 : ℝ) (_hs0 : 0 < s0) (_hs1 : 0 < s1) (_hes0 : 0 < es0) (_hes1 : 0 < es1) (_hb0 : 0 < b0) (_hb1 : 0 < b1) (_hu0 : 0 < u0) (_hu1 : 0 < u1) (_heb0 : 0 < eb0) (_heb1 : 0 < eb1) :
-    Gen.shapeB_bin1 realPrim s0 s1 es0 es1 b0 b1 u0 u1 eb0 eb1 p_lumi p_mu p_uncorr_0 p_uncorr_1 p_stat_SR_0 p_stat_SR_1 = Gen.shapeB_ref1 realPrim s0 s1 es0 es1 b0 b1 u0 u1 eb0 eb1 p_lumi p_mu p_uncorr_0 p_uncorr_1 p_stat_SR_0 p_stat_SR_1 := by
+theorem shapeB_bin1_eq (s0 s1 es0 es1 b0 b1 u0 u1 eb0 eb1 hl0 hl1 hh0 hh1 p_sysH p_lumi p_mu p_uncorr_0 p_uncorr_1 p_stat_SR_0 p_stat_SR_1 : ℝ) (_hs0 : 0 < s0) (_hs1 : 0 < s1) (_hes0 : 0 < es0) (_hes1 : 0 < es1) (_hb0 : 0 < b0) (_hb1 : 0 < b1) (_hu0 : 0 < u0) (_hu1 : 0 < u1) (_heb0 : 0 < eb0) (_heb1 : 0 < eb1) (_hhl0 : 0 < hl0) (_hhl1 : 0 < hl1) (_hhh0 : 0 < hh0) (_hhh1 : 0 < hh1) :
+    Gen.shapeB_bin1 realPrim s0 s1 es0 es1 b0 b1 u0 u1 eb0 eb1 hl0 hl1 hh0 hh1 p_sysH p_lumi p_mu p_uncorr_0 p_uncorr_1 p_stat_SR_0 p_stat_SR_1 = Gen.shapeB_ref1 realPrim s0 s1 es0 es1 b0 b1 u0 u1 eb0 eb1 hl0 hl1 hh0 hh1 p_sysH p_lumi p_mu p_uncorr_0 p_uncorr_1 p_stat_SR_0 p_stat_SR_1 := by
   unfold Gen.shapeB_bin1 Gen.shapeB_ref1; shape_eq
 
 set_option maxHeartbeats 1600000 in
